@@ -1,21 +1,16 @@
 #!/bin/sh
-# tools/benign.sh   apply every behaviour-preserving variant in /verif/benign to a scratch worktree of /repo
-# and run all quick checks: every property must still be decided HOLDS (no alarm on code where it holds).
+# tools/benign.sh [diff ...]   apply every behaviour-preserving variant in /verif/benign to a scratch worktree
+# of /repo and run all quick checks: every property must still be decided HOLDS (no alarm on code where it holds).
 cd "$(dirname "$0")/.." || exit 2
 . ./env.sh
 W=/tmp/benign.$$
 git -C /repo worktree add -q --detach $W HEAD || exit 2
 rc=0
-for p in benign/*.diff; do
-	git -C $W checkout -q -- . ; git -C $W clean -fdq
-	if ! git -C $W apply "$PWD/$p" 2>/dev/null && ! (cd $W && patch -p1 -s --no-backup-if-mismatch < "$OLDPWD/$p" >/dev/null 2>&1); then echo "$p: DOES NOT APPLY"; rc=1; continue; fi
-	if ! (cd $W && go build ./... >/dev/null 2>&1); then echo "$p: DOES NOT BUILD"; rc=1; continue; fi
-	bad=""
-	for c in C01 C02 C03 C04 C05 C06 C07 C08 C09 C10 C11 C12 C13 C14 C15 C16 C17 C18 C19 C20; do
-		out=$(bin/sunlint -repo $W -property $c -tier quick -evidence /tmp/benign_ev.$$ 2>&1)
-		if echo "$out" | grep -q "^VIOLATION"; then bad="$bad $c"; echo "$out" | grep -E "^(VIOLATED|UNDECIDED)" | cut -c1-240 | head -3; fi
-	done
-	if [ -n "$bad" ]; then echo "$p: FALSE ALARM in$bad"; rc=1; else echo "$p: silent (20/20 HOLD)"; fi
+LIST="$*"
+[ -n "$LIST" ] || LIST=$(ls benign/*.diff)
+for p in $LIST; do
+	out=$(MUTREPO=$W tools/trymutant.sh "$p" 2>&1 | grep -v "^done")
+	if [ -n "$out" ]; then echo "$p: FALSE ALARM"; echo "$out" | cut -c1-300; rc=1; else echo "$p: silent (20/20 HOLD)"; fi
 done
-git -C /repo worktree remove --force $W; rm -rf /tmp/benign_ev.$$
+git -C /repo worktree remove --force $W
 exit $rc
